@@ -32,6 +32,7 @@ WHAT = {
     "no-return": "the call did not come back although every member returned",
     "goroutines-remain": "goroutines started by the call are still parked after every member returned",
     "not-cancelled": "a member that returned after the outcome was decided saw a context that was not cancelled",
+    "cancelled-early": "a member saw its context cancelled before the outcome was decided (and the caller had not cancelled)",
     "err-iff": "the call erred / did not err against the strategy's rule",
     "first-error": "the returned error is not the first one observed",
     "winner": "the single result is not the strategy's (first success / first response / first in order)",
